@@ -21,3 +21,6 @@ PROPS = {
 }
 PROPS["C02"] = dict(level="exploration", steps=simple("^TestC02"), assumptions=TRUST)
 PROPS["C09"] = dict(level="exploration", steps=simple("^(TestC09|TestRefGolden)"), assumptions=TRUST)
+PROPS["C19"] = dict(level="exploration", steps=simple("^TestC19", shards_thorough=1), assumptions=TRUST)
+PROPS["C06"] = dict(level="fault_enumeration", steps=simple("^TestC06"), assumptions=TRUST)
+PROPS["C05"] = dict(level="exploration", steps=simple("^TestC05"), assumptions=TRUST)
